@@ -20,6 +20,10 @@ mod memory;
 mod options;
 mod sealed;
 
+/// Verification hooks (only with `--cfg al8n_rarena_verif`).
+#[cfg(al8n_rarena_verif)]
+pub mod verif;
+
 #[cfg(test)]
 #[macro_use]
 mod tests;
@@ -879,6 +883,11 @@ impl Meta {
 
   #[inline]
   unsafe fn clear<A: Allocator>(&self, arena: &A) {
+    #[cfg(al8n_rarena_verif)]
+    crate::verif::api_event(crate::verif::ApiEvent::Zero {
+      offset: self.ptr_offset,
+      len: self.ptr_size,
+    });
     unsafe {
       let ptr = arena.raw_mut_ptr().add(self.ptr_offset as usize);
       core::ptr::write_bytes(ptr, 0, self.ptr_size as usize);
